@@ -1,4 +1,5 @@
 import Bng.Map
+import Bng.Model.PoolSpec
 /-
   Model of pkg/allocator/bitmap.go (IPAllocator).
 
@@ -232,5 +233,31 @@ def run (s : State) (ops : List Op) : State := ops.foldl (fun st op => (step st 
 def trace : State → List Op → List (Op × Obs)
   | _, [] => []
   | s, op :: ops => (op, (step s op).2) :: trace (step s op).1 ops
+
+/-- the geometry the abstract pool specification is told about -/
+def geoOf (c : Cfg) : PoolSpec.Geo :=
+  { lo := c.base, step := c.step, units := c.totalBig, totalReported := c.total }
+
+/-- a request naming any address inside a unit refers to that unit (getIndexByPrefix rounds down) -/
+def unitOf (c : Cfg) (x : Nat) : Nat :=
+  if c.step = 0 ∨ x < c.base then x else c.base + (x - c.base) / c.step * c.step
+
+/-- What an answer of the allocator means for the abstract pool (C01/C05 monitor input).
+    Used by `bngdrv` on the IMPLEMENTATION's answers and by the refinement theorem on the model's. -/
+def toEvent (c : Cfg) : Op → Obs → PoolSpec.Ev
+  | .alloc k, .okAddr a => .got k a
+  | .alloc _, .exhausted => .exhausted
+  | .allocSpecific k x _, .ok => .got k (unitOf c x)
+  | .release k, .ok => .released k
+  | .release k, .notfound => .notHeld k
+  | .releasePrefix x _, .ok => .releasedVal (unitOf c x)
+  | .lookup k, .none => .looked k none
+  | .lookup k, .okAddr a => .looked k (some a)
+  | .lookupByPrefix x l, .none => if l = c.plen then .owner (unitOf c x) none else .nop
+  | .lookupByPrefix x l, .sub k => if l = c.plen then .owner (unitOf c x) (some k) else .nop
+  | .stats, .stats a t => .stats a t
+  | .setAllocation k x _, .ok => .forced k (unitOf c x)
+  | .list, .list l => .listing (l.map fun (k, a, _) => (k, a))
+  | _, _ => .nop
 
 end Bng.Bitmap
